@@ -227,6 +227,7 @@ func (x *SExec) apply(i int, op SOp) *Fail {
 		}
 		n = started
 		x.Mode[n] = types.RW
+		delete(x.Frozen, n)
 		x.AttAck[n] = len(x.Acked)
 		x.AttLog[n] = len(st.Nodes[n].LogCopy())
 		// the volume restarts from what this replica holds (which replica may
@@ -302,6 +303,7 @@ func (x *SExec) apply(i int, op SOp) *Fail {
 			x.AttLog[n] = len(node.LogCopy())
 			x.Labels["add:ok"]++
 			delete(x.subBlockWO, n)
+			delete(x.Frozen, n)
 		}
 	case "promote":
 		n := op.Node % len(st.Nodes)
@@ -452,6 +454,21 @@ func (x *SExec) apply(i int, op SOp) *Fail {
 		return x.doRebuild(i, op)
 	case "sysrebuild":
 		return x.doSysRebuild(i, op)
+	case "setmodeseq":
+		// several set-mode requests for one address back to back (no settling in between)
+		n := op.Node % len(st.Nodes)
+		addr := st.Nodes[n].Addr
+		for _, mname := range strings.Split(op.Name, ",") {
+			mode := types.Mode(mname)
+			err := c.SetReplicaMode(addr, mode)
+			x.tracef("setmode %s %s -> %v", addr, mode, err)
+			if err == nil && x.Mode[n] != "" && x.Mode[n] != types.ERR && (mode == types.ERR || mode == types.RW) {
+				x.Mode[n] = mode
+				if mode == types.ERR {
+					x.Frozen[n] = st.Nodes[n].LogLen("write", "read", "sync", "unmap")
+				}
+			}
+		}
 	case "setmode":
 		n := op.Node % len(st.Nodes)
 		addr := st.Nodes[n].Addr
@@ -472,6 +489,9 @@ func (x *SExec) apply(i int, op SOp) *Fail {
 		}
 		if op.Str == "" && x.Mode[n] != "" && x.Mode[n] != types.ERR {
 			x.Mode[n] = mode
+			if mode == types.ERR {
+				x.Frozen[n] = st.Nodes[n].LogLen("write", "read", "sync", "unmap")
+			}
 		}
 	default:
 		panic("unknown stack op " + op.K)
@@ -1591,6 +1611,7 @@ finished:
 		x.AttAck[n] = len(x.Acked)
 		x.AttLog[n] = len(node.LogCopy())
 		delete(x.subBlockWO, n)
+		delete(x.Frozen, n)
 		node.fixDrainer()
 	}
 	var werr *Fail
